@@ -257,6 +257,9 @@ fn ev_poly(rng: &mut StdRng, out: &mut Out, case: &str, sh: &Value) {
         }
         _ => panic!("unknown poly op"),
     };
+    if pop == "mul_fft" && pa.len() + pb.len() < 3 {
+        return; // asserted precondition: transform size >= 2
+    }
     let ringsize = if ntt { pow2ceil(pa.len().max(pb.len())).max(32) } else { 16 };
     let ev = json!({"op": match pop.as_str() { "mul_karatsuba" | "mul_fft" | "mul_basic" => "mul", o => o }, "alg": pop, "case": case,
                     "shape": sh, "bits": bits, "nd": n.to_string(), "n": dn(&n), "a": dig(&pa), "b": dig(&pb), "ringsize": ringsize,
